@@ -540,8 +540,19 @@ static void case_frames(long idx, Rng& r) {
                 else if (sel == 6) { if (cipher == 0) { for (auto& kv : m2.wep) if (kv.second == w.wep[s.ap]) kv.second = w.wep[1 - s.ap]; } else { const Sta* o2 = &w.sta[0]; for (auto& x : w.sta) if (x.mac != s.mac) { o2 = &x; if (r.chance(1, 2)) break; } m2.wpa[mkpair(h.a1, h.a2)].ptk = o2->key.ptk; } how = "other-stations-key"; }
                 else { if (cipher == 0) m2.wep.erase(h.to_ds && !h.from_ds ? h.a1 : h.from_ds && !h.to_ds ? h.a2 : h.a3); else m2.wpa.erase(mkpair(h.a1, h.a2)); if (cipher == 0 && h.four()) m2.wep.clear(); how = "key-of-this-station-removed"; }
                 Expect e2 = ex(m2, g.frame); cnt("neg:" + how);
-                if (cipher == 0) { Crypto::WEPDecrypter d2; load(d2, m2); go("wep", d2, e2, g.frame, "negative " + how + " of " + g.what, pick_opt(r)); }
-                else { Crypto::WPA2Decrypter d2; load(d2, m2, r); go("wpa2", d2, e2, g.frame, "negative " + how + " of " + g.what, pick_opt(r)); }
+                // the second engine state is reached through the public API from the full state (overwrite / remove), or built afresh
+                bool delta = r.chance(1, 2); cnt(delta ? "neg:state-reached-by-api-delta" : "neg:state-built-afresh");
+                if (cipher == 0) {
+                    Crypto::WEPDecrypter d2;
+                    if (!delta) load(d2, m2);
+                    else { load(d2, m); for (auto& kv : m.wep) { auto it = m2.wep.find(kv.first); if (it == m2.wep.end()) d2.remove_password(hw(kv.first)); else if (it->second != kv.second) d2.add_password(hw(kv.first), std::string(it->second.begin(), it->second.end())); } }
+                    go("wep", d2, e2, g.frame, "negative " + how + " of " + g.what, pick_opt(r));
+                } else {
+                    Crypto::WPA2Decrypter d2;
+                    if (!delta || m2.wpa.size() != m.wpa.size()) load(d2, m2, r);          // keys cannot be removed through the API
+                    else { load(d2, m, r); for (auto& kv : m2.wpa) if (m.wpa[kv.first].ptk != kv.second.ptk) d2.add_decryption_keys(std::make_pair(hw(kv.first.second), hw(kv.first.first)), Crypto::WPA2::SessionKeys(kv.second.ptk, kv.second.ccmp)); }
+                    go("wpa2", d2, e2, g.frame, "negative " + how + " of " + g.what, pick_opt(r));
+                }
             }
         }
         // the other engine must not claim the frame either
